@@ -50,11 +50,14 @@ inductive Act
 
 abbrev State := Cell → Val
 
+/-- a fill keeps what is there and installs `v` only into an empty (0 / nil) cell -/
+def fillVal (old v : Val) : Val := if old = 0 then v else old
+
 def stepState (σ : State) : Act → State
   | .read _ => σ
   | .write c v => fun x => if x = c then v else σ x
-  | .cacheFill c v => fun x => if x = c ∧ σ c = 0 then v else σ x
-  | .lazyInit c v => fun x => if x = c ∧ σ c = 0 then v else σ x
+  | .cacheFill c v => fun x => if x = c then fillVal (σ c) v else σ x
+  | .lazyInit c v => fun x => if x = c then fillVal (σ c) v else σ x
 
 /-- what the acting thread observes (its verdict is a function of the list of these) -/
 def stepObs (σ : State) : Act → Option Val
@@ -152,6 +155,8 @@ def AgreeOff (k : Cfg) (σ τ : State) : Prop := ∀ c, c ∉ k.cache → σ c =
 
 /-! ## helper lemmas -/
 
+theorem fillVal_ne (old v : Val) (h : old ≠ 0) : fillVal old v = old := by simp [fillVal, h]
+
 theorem lazy_step (k : Cfg) (σ : State) (a : Act) (hc : cleanAct k a = true) (hl : LazyInit k σ) :
     LazyInit k (stepState σ a) := by
   intro c hcl
@@ -161,13 +166,13 @@ theorem lazy_step (k : Cfg) (σ : State) (a : Act) (hc : cleanAct k a = true) (h
   | write c' v => simp [cleanAct] at hc
   | cacheFill c' v =>
     simp only [stepState]
-    by_cases hx : c = c' ∧ σ c' = 0
-    · exact absurd (hx.1 ▸ hx.2) h0
+    by_cases hx : c = c'
+    · subst hx; simp [fillVal_ne _ v h0, h0]
     · simp [hx, h0]
   | lazyInit c' v =>
     simp only [stepState]
-    by_cases hx : c = c' ∧ σ c' = 0
-    · exact absurd (hx.1 ▸ hx.2) h0
+    by_cases hx : c = c'
+    · subst hx; simp [fillVal_ne _ v h0, h0]
     · simp [hx, h0]
 
 theorem acc_not_write (k : Cfg) (σ : State) (a : Act) (hc : cleanAct k a = true) (hl : LazyInit k σ) :
@@ -230,7 +235,10 @@ theorem agree_other (k : Cfg) (σ τ : State) (a : Act) (hag : AgreeOff k σ τ)
     simp only [cleanAct, Bool.and_eq_true, List.contains_iff_mem] at hc
     have h0 := hl c (by simpa using hc.1)
     intro x hx
-    simp [stepState, h0, hag x hx]
+    simp only [stepState]
+    by_cases hxc : x = c
+    · subst hxc; simp only [if_true]; rw [fillVal_ne _ v h0]; exact hag x hx
+    · simp [hxc, hag x hx]
 
 theorem agree_refl (k : Cfg) (σ : State) : AgreeOff k σ σ := fun _ _ => rfl
 
